@@ -1568,11 +1568,16 @@ macro_rules! public_decode_function{
                     first_read = read; // Overwrite, don't add!
                     first_written += written;
                 }
-                DecoderResult::Malformed(_, _) => {
+                DecoderResult::Malformed(len, after) => {
                     if first_read == 1usize {
                         // The first byte was malformed. We need to handle
                         // the second one, which isn't in `src`, later.
                         self.life_cycle = DecoderLifeCycle::ConvertingWithPendingBB;
+                        // The caller has already been told that the second
+                        // byte was consumed, so from the caller's point of
+                        // view one more byte has been consumed after the
+                        // malformed sequence.
+                        first_result = DecoderResult::Malformed(len, after + 1);
                     }
                     first_read = 0usize; // Wasn't read from `src`!
                 }
